@@ -130,6 +130,7 @@ func (prom *Prometheus) RangeQuery(ctx context.Context, expr string, params Rang
 
 	var wg sync.WaitGroup
 	var lastErr error
+	var sawCanceled bool
 
 	ctx, cancel := context.WithCancel(ctx)
 	defer cancel()
@@ -188,6 +189,8 @@ func (prom *Prometheus) RangeQuery(ctx context.Context, expr string, params Rang
 		if result.err != nil {
 			if !errors.Is(result.err, context.Canceled) {
 				lastErr = result.err
+			} else {
+				sawCanceled = true
 			}
 			wg.Done()
 			continue
@@ -207,6 +210,10 @@ func (prom *Prometheus) RangeQuery(ctx context.Context, expr string, params Rang
 		merged.Series.Ranges, _ = MergeRanges(merged.Series.Ranges, step)
 	}
 
+	if lastErr == nil && sawCanceled {
+		// no slice failed on its own: it is the caller's context that was cancelled
+		lastErr = context.Canceled
+	}
 	if lastErr != nil {
 		return nil, QueryError{err: lastErr, msg: decodeError(lastErr)}
 	}
